@@ -288,9 +288,6 @@ class Check:
 
     def fail(self, alg, case, fmt, outtype, kind, observed, expected, extra=None):
         """the implementation fails the property on this case (already judged)"""
-        if alg == "bin_completion" and fmt in ("dict_str", "dict_int", "names_valueof", "array_valueof") and \
-                kind not in ("input-modified", "history-dependent", "not-repeatable", "oversize-accepted") and self._kf4_shape(case, observed):
-            kind = "names-not-values:" + kind       # KF4 explains TypeErrors and badly packed (but conserved) names, nothing else
         k = self.match_known(alg, case, fmt, kind)
         if k is not None:
             self.known_hits.setdefault(k["id"], {"finding": k, "count": 0, "first": {"case": case, "fmt": fmt}})
